@@ -453,7 +453,7 @@ def shrink_files(files, root, pred, budget_s=30):
 
 
 # --------------------------------------------------------------------------- batch evaluation shared by C03 / C06 / C17
-def evaluate(bindir, exe, wss, noguard=False, model=True, timeout=180):
+def evaluate(bindir, exe, wss, noguard=False, model=True, timeout=180, with_text=True):
     """real run + model replay + comparison + the three oracles, per workspace"""
     reals = run_symdump_parallel(bindir, wss, timeout=timeout)
     res = []
@@ -467,7 +467,7 @@ def evaluate(bindir, exe, wss, noguard=False, model=True, timeout=180):
             e["c06"] = c06_oracle(w, r)
             e["c17"], e["nranges"] = c17_oracle(w, r)
     if model and idx:
-        blocks = [model_block(wss[i], reals[i], noguard=noguard) for i in idx]
+        blocks = [model_block(wss[i], reals[i], noguard=noguard, with_text=with_text) for i in idx]
         models = run_model(exe, blocks)
         for i, m in zip(idx, models):
             res[i]["model"] = m
